@@ -22,6 +22,7 @@ import time
 from gridrv import core
 
 PY = "/venv/bin/python"
+OPT_STRIDE = 4
 
 
 def worker_env():
@@ -40,9 +41,19 @@ def run_workers(prop, tier, seed, jobs, budget, replay, workdir):
     env = worker_env()
     procs = []
     n = 1 if replay else jobs
-    for i in range(n):
+    # second pass: every OPT_STRIDE-th case again under "python -O" (asserts and "if __debug__:" blocks stripped);
+    # the properties do not depend on the interpreter flag, the library may (seeded change adv5-c02-2)
+    nopt = 0 if replay else max(1, jobs // OPT_STRIDE)
+    replay_opt = False
+    if replay:
+        with open(replay) as fh:
+            replay_opt = json.load(fh).get("record", {}).get("pymode") == "optimized"
+    for i in range(n + nopt):
         out = os.path.join(workdir, f"w{i}.json")
-        cmd = [PY, "-m", "gridrv.worker", "--prop", prop, "--tier", tier, "--seed", str(seed), "--shard", str(i), "--nshards", str(n), "--out", out, "--budget", str(budget)]
+        if i < n:
+            cmd = [PY] + (["-O"] if replay_opt else []) + ["-m", "gridrv.worker", "--prop", prop, "--tier", tier, "--seed", str(seed), "--shard", str(i), "--nshards", str(n), "--out", out, "--budget", str(budget)]
+        else:
+            cmd = [PY, "-O", "-m", "gridrv.worker", "--prop", prop, "--tier", tier, "--seed", str(seed), "--shard", str(i - n), "--nshards", str(nopt), "--subsample", str(OPT_STRIDE), "--out", out, "--budget", str(budget)]
         if replay:
             cmd += ["--replay", replay]
         log = open(os.path.join(workdir, f"w{i}.log"), "w")
@@ -70,8 +81,9 @@ def run_workers(prop, tier, seed, jobs, budget, replay, workdir):
 
 
 def merge(results):
-    m = {"clauses": {}, "failures": {}, "hooks": {}, "cases_run": 0, "case_hashes": set(), "nontrivial_hashes": set(), "families": {}, "samples": [], "monitor_errors": [], "notes": {}, "observations": [], "skipped_budget": 0, "assigned": 0, "reach": set(), "worker_wall": []}
+    m = {"clauses": {}, "failures": {}, "hooks": {}, "cases_run": 0, "case_hashes": set(), "nontrivial_hashes": set(), "families": {}, "samples": [], "monitor_errors": [], "notes": {}, "observations": [], "skipped_budget": 0, "assigned": 0, "reach": set(), "worker_wall": [], "modes": {}}
     for r in results:
+        m["modes"][r.get("pymode", "default")] = m["modes"].get(r.get("pymode", "default"), 0) + r["cases_run"]
         for c, st in r["clauses"].items():
             d = m["clauses"].setdefault(c, {"n": 0, "fail": 0, "max": 0.0, "tol": st["tol"], "argmax": None})
             d["n"] += st["n"]
@@ -201,6 +213,7 @@ def main(argv=None):
         "cases_skipped_for_time": int(m["skipped_budget"]),
         "library_functions_reached": sorted(m["reach"]),
         "workers": len(results),
+        "cases_per_interpreter_mode": m["modes"],
         "worker_wall_s": m["worker_wall"],
         "repo": core.REPO,
         "exhaustive": bool(getattr(mod, "EXHAUSTIVE", {}).get(a.tier, False)) and m["skipped_budget"] == 0,
